@@ -433,6 +433,52 @@ pub fn run(prop: &'static str, tier: &str) -> i32 {
                 }
             }
         }
+        // the same claim spelled differently in the payload text: JSON escapes in the value and in the member
+        // name, white space between the tokens of the object, the claim last among other members. The claim's
+        // value is the same string, so the verdict must be the one for that string
+        {
+            let esc_all = |t: &str| t.chars().map(|c| format!("\\u{:04x}", c as u32)).collect::<String>();
+            let esc_some = |t: &str| t.chars().map(|c| if matches!(c, '+' | ':' | '-' | 'T' | 'Z' | '.') { format!("\\u{:04X}", c as u32) } else { c.to_string() }).collect::<String>();
+            for (side, rel) in [("accepting", if claim == "exp" { 3600 * S } else { -3600 * S }), ("rejecting", if claim == "exp" { -3600 * S } else { 3600 * S })] {
+                let _ = side;
+                for (off, k, z) in [(0i64, 0usize, ZForm::Z), (19800, 3, ZForm::Numeric), (-34200, 9, ZForm::Numeric)] {
+                    let Some(t) = rfc3339::render(now + rel, off, k, 'T', z) else { continue };
+                    let name_esc = esc_all(claim);
+                    let spellings = [
+                        format!("{{\"{}\":\"{}\"}}", claim, esc_all(&t)),
+                        format!("{{\"{}\":\"{}\"}}", claim, esc_some(&t)),
+                        format!("{{\"{}\":\"{}\"}}", name_esc, t),
+                        format!("{{\"{}\":\"{}\"}}", name_esc, esc_some(&t)),
+                        format!(" {{ \"{}\" :\n\t\"{}\" }} ", claim, t),
+                        format!("{{\"a\":[1,{{\"{}\":\"x\"}}],\"zz\":null,\"{}\":\"{}\"}}", claim, claim, t),
+                        format!("{{\"{}\":\"{}\",\"data\":\"\\u00e9\\n\"}}", claim, t),
+                    ];
+                    for payload in spellings {
+                        evaluate(prop, &TimeCase { proto: *p, now_ns: Some(now.to_string()), payload }, &mut acc);
+                        acc.choice_points += 1;
+                    }
+                }
+            }
+        }
+        // clocks far from the present (an unset real-time clock, the 2038 and 2106 second-counter limits, the
+        // nanosecond-counter limit of 2262, far future): the rules are relative to whatever the clock reads
+        {
+            let ladder: [(i64, i64, i64, i64); 12] = [
+                (1970, 1, 1, 1), (1985, 4, 12, 84_213), (2001, 9, 9, 6_400), (2018, 12, 31, 86_399), (2019, 1, 1, 0), (2038, 1, 19, 11_647), (2038, 1, 19, 11_648),
+                (2106, 2, 7, 23_295), (2106, 2, 7, 23_296), (2262, 4, 11, 85_636), (2262, 4, 12, 3), (8999, 12, 31, 86_399),
+            ];
+            for (y, m, d, sod) in ladder {
+                let clk = (rfc3339::days_from_civil(y, m, d) as i128 * 86400 + sod as i128) * S + 500_000_000;
+                for rel in [-86400 * S, -2 * S, 60 * S, 86400 * S] {
+                    for c2 in ["exp", "nbf"] {
+                        if let Some(t) = rfc3339::render(clk + rel, 0, 3, 'T', ZForm::Z) {
+                            evaluate(prop, &TimeCase { proto: *p, now_ns: Some(clk.to_string()), payload: payload_for(c2, &t) }, &mut acc);
+                            acc.choice_points += 1;
+                        }
+                    }
+                }
+            }
+        }
         // other objects used earlier on the thread, at another clock reading (a builder created, built, refused
         // or failed; a plain or generic parser): the default rules judge against the clock as it reads when the
         // token is parsed, in both directions of the clock change
